@@ -95,7 +95,7 @@ def prune_cache(keep):
         return
     dirs = [d for d in os.listdir(CACHE) if os.path.isdir(os.path.join(CACHE, d)) and len(d) == 16 and d != keep]
     dirs.sort(key=lambda d: os.path.getmtime(os.path.join(CACHE, d)))
-    for d in dirs[:-1]:  # keep the most recent other one
+    for d in dirs[:-3]:  # keep the most recent other ones (checks against scratch copies may run concurrently)
         shutil.rmtree(os.path.join(CACHE, d), ignore_errors=True)
 
 
@@ -154,6 +154,6 @@ def lake_build(targets=()):
     """(Re)build the Lean library and the driver. Returns (ok, output)."""
     with flock("lake"):
         t0 = time.time()
-        p = subprocess.run(["lake", "build"] + list(targets), cwd=LEAN_DIR, stdout=subprocess.PIPE,
+        p = subprocess.run(["lake", "build"] + (list(targets) or ["Sessions", "driver"]), cwd=LEAN_DIR, stdout=subprocess.PIPE,
                            stderr=subprocess.STDOUT, text=True)
         return p.returncode == 0, p.stdout, time.time() - t0
